@@ -163,6 +163,10 @@ def install(w):
             return ex.cast(v, dst, 'IntToInt')
         if dst and strip_base(dst) == strip_base(c.selfty or ''):
             return v
+        if dst:
+            f = ex.find_impl('From', strip_base(dst), 'from', [v])
+            if f is not None:
+                return ex.call_function(f, [v])
         raise Unsupported('into %s' % c.raw)
 
     def strip_base(t):
